@@ -250,6 +250,8 @@ func (s *Stats) add(o Stats) {
 	s.DomainDecided += o.DomainDecided
 	s.IntervalDecided += o.IntervalDecided
 	s.StaleModels += o.StaleModels
+	s.Summaries += o.Summaries
+	s.SummaryHits += o.SummaryHits
 }
 
 func (s *SolverStats) add(o SolverStats) {
@@ -364,6 +366,7 @@ func (m *Machine) exploreItem(fn *ssa.Function, prefix []PrefixEntry, q *workQue
 // prefix is kept (literals are rebuilt on replay).
 func (m *Machine) resetTerms() {
 	m.tt = NewTermTable()
+	m.summaries = map[string]value{}
 	m.solver.TT = m.tt
 	m.constCache = map[*ssa.Const]value{}
 	m.solver.PopTo(0)
